@@ -131,6 +131,9 @@ func Unpack(buf []byte, dotu bool) (fc *Fcall, fcsz int, err error) {
 		fc.Fid, p = gint32(p)
 		fc.Newfid, p = gint32(p)
 		m, p = gint16(p)
+		if len(p) < int(m)*2 {
+			goto szerror
+		}
 		fc.Wname = make([]string, m)
 		for i := 0; i < int(m); i++ {
 			fc.Wname[i], p = gstr(p)
@@ -193,13 +196,10 @@ func Unpack(buf []byte, dotu bool) (fc *Fcall, fcsz int, err error) {
 		fc.Offset, p = gint64(p)
 		fc.Count, p = gint32(p)
 		if len(p) != int(fc.Count) {
-			fc.Data = make([]byte, fc.Count)
-			copy(fc.Data, p)
-			p = p[len(p):]
-		} else {
-			fc.Data = p
-			p = p[fc.Count:]
+			goto szerror
 		}
+		fc.Data = p
+		p = p[fc.Count:]
 
 	case Rwrite:
 		fc.Count, p = gint32(p)
